@@ -60,17 +60,33 @@ class FsProxy:
         ctl['count'] += 1
         self._log.append((kind,) + info)
 
+    def _io(self, kinds):
+        # the buffering-layer view of the same stream (Model/BufIO.lean): w = buffered write, s = seek, f = flush,
+        # d = a write that bypasses the buffer
+        self._ctl.setdefault('io', []).append(kinds)
+
     def write(self, b):
         self._event('write', self._fs.tell(), bytes(b))
+        self._io('w')
         return self._fs.write(b)
 
     def truncate(self, *a):
         self._event('truncate', self._fs.tell() if not a else a[0])
+        self._io('fd')                           # BufferedRandom.truncate flushes, then ftruncate(2)
         return self._fs.truncate(*a)
 
     def flush(self):
         self._event('flush')
+        self._io('f')
         return self._fs.flush()
+
+    def seek(self, *a):
+        self._io('s')
+        return self._fs.seek(*a)
+
+    def close(self):
+        self._io('f')
+        return self._fs.close()
 
     def __getattr__(self, name):
         return getattr(self._fs, name)
@@ -79,10 +95,42 @@ class FsProxy:
         setattr(self._fs, name, v)
 
 
+_FD_OWNER = {}          # file descriptor -> proxy of the store file that owns it (descriptor-level writes bypass the buffer)
+
+
+def _patch_os():
+    def mk(name):
+        real = getattr(os, name)
+
+        def f(fd, *a, **kw):
+            px = _FD_OWNER.get(fd)
+            if px is not None:
+                try:
+                    live = (not px._fs.closed) and px._fs.fileno() == fd
+                except Exception:                                 # noqa
+                    live = False
+                if live:
+                    px._event('direct', name)
+                    px._io('d')
+            return real(fd, *a, **kw)
+        f._c06 = True
+        return f
+    for name in ('pwrite', 'write', 'pwritev', 'writev', 'ftruncate'):
+        if hasattr(os, name) and not getattr(getattr(os, name), '_c06', False):
+            setattr(os, name, mk(name))
+
+
+_patch_os()
+
+
 def wrap(store, log, ctl):
     arr = store.array
     if arr.fs is not None and not isinstance(arr.fs, FsProxy):
         arr.fs = FsProxy(arr.fs, log, ctl)
+        try:
+            _FD_OWNER[arr.fs.fileno()] = arr.fs
+        except Exception:                                         # noqa
+            pass
     return store
 
 
@@ -540,6 +588,23 @@ def process(ctx, cases, kill_fraction):
             answers = [dict(error='no driver')] * len(infos)
         else:
             answers = ctx.lean.drive([i['mreq'] for i in infos])
+        if ctx.driver_ok:
+            # the buffering discipline (hypothesis of `buffered_kill_is_prefix`) on the event streams of both runs of every history
+            ioreqs, iometa = [], []
+            for info in infos:
+                for which, rr in (('observed', info['runner']), ('writer-only', info['blind'])):
+                    kinds = ''.join(rr.ctl.get('io', []))
+                    ioreqs.append(dict(op='C06.io', kinds=kinds))
+                    iometa.append((info['case'], which, kinds))
+            for (case, which, kinds), a in zip(iometa, ctx.lean.drive(ioreqs)):
+                m = a.get('ok')
+                ctx.count('io.discipline', 'no answer' if m is None else ('kept' if m['disciplined'] else 'BROKEN'))
+                if m is None:
+                    ctx.corr_break('driver', case, a, None)
+                elif not m['disciplined']:
+                    ctx.corr_break('io-discipline', dict(case, run=which), 'no write bypasses the buffer while buffered writes are pending',
+                                   kinds[:200])
+                    break
         for info, a in zip(infos, answers):
             if ctx.enough():
                 break
